@@ -225,10 +225,10 @@ pub fn strategy(allow_stray: bool) -> impl Strategy<Value = Case> {
 pub fn run_check(ctx: &mut Ctx) {
     ctx.rule = "texts = generator programs rendered with random trivia (comments incl. nested/multi-line/non-ASCII, CRLF, case flips) or concatenated line fragments of the repository's example sources, with 0-2 character insertions/deletions/replacements from a list of special characters at random positions; oracle: parse without diagnostics => upper-cased concatenated Display of the tokens == upper-cased text (CRLF->LF). non-trivial = mutated or containing non-ASCII; distinct by case hash".into();
     ctx.assumptions.push("letter case is compared after to_uppercase on both sides (the printer upper-cases keywords together with their leading trivia)".into());
-    let n = ctx.tier.pick(30_000, 600_000);
-    ctx.campaign("clean-domain", n, strategy(false), prop, to_json);
-    let n2 = ctx.tier.pick(6_000, 100_000);
-    ctx.campaign("feature:stray-paren-or-cr", n2, strategy(true), prop, to_json);
+    let n = ctx.tier.pick(60_000, 1_500_000);
+    ctx.campaign_parallel("without-stray-insertions", n, 16, || strategy(false), prop, to_json);
+    let n2 = ctx.tier.pick(30_000, 600_000);
+    ctx.campaign_parallel("with-stray-paren-or-cr", n2, 16, || strategy(true), prop, to_json);
     let m = ctx.label_count("mutated-and-parse-clean");
     let total = ctx.evaluations.max(1);
     ctx.health(m * 100 / total >= 3, format!("mutated texts that still parse clean: {}%", m * 100 / total));
